@@ -77,7 +77,7 @@ def replay_chunk(ctx, texts):
         hist = list(s["hist"])
         cfg = dict(cfg)
         cfg["tick"] = ctx.get("tick", 1)
-        cfg["reuse_transmitter"] = bool(ctx.get("reuse")) and (len(cfg["events"]) % 2 == 1)
+        cfg["reuse_transmitter"] = (ctx.get("reuse") if len(cfg["events"]) % 2 == 1 else False) or False
         fails, n = replay_env.run_case(cfg, hist, ctx["trade"], seed=len(cfg["events"]), owned=ctx.get("owned"))
         out["n"] += 1
         out["ops"] += n
